@@ -8,8 +8,9 @@ import PyamgV.Proofs.ExtC17R5Bucket
 * reachability: after round `k` of the triple loop every pair joined by a walk through intermediate local indices `< k` has a finite
   distance (`Rk`, `lwalk_rk`: the classical Floyd–Warshall induction, on finiteness only -- the tolerance test
   `D[ij] > D[ik] + D[kj] + tol` always fires when `D[ij] = inf` and the sum is finite);
-* `fwRun_no_fault`: on a cluster that is strongly connected through stored entries (`CWalk`; the assumption stated in the kernel's
-  doc string) the run makes no out-of-bounds access, reads no uninitialised `L` entry, and ALL `N × N` distances end finite.
+* `fwRun_ok`: on ANY cluster the run makes no out-of-bounds access and reads no uninitialised `L` entry; pairs joined by a walk
+  inside the cluster end finite; `fwRun_connected`: on a cluster that is strongly connected through stored entries (`CWalk`; the
+  assumption stated in the kernel's doc string) ALL `N × N` distances end finite.
 Core Lean + E34's files. -/
 namespace PyamgV.C17R5
 open PyamgV.Bal PyamgV.BalLloyd
@@ -355,13 +356,13 @@ theorem replicate_ok (N n sz : Nat) (hsz : N * N ≤ sz) :
   simp only [rdO, Array.getD_eq_getD_getElem?, Array.getElem?_replicate] at hx'
   split at hx' <;> cases hx'
 
-/-- **`floyd_warshall` on a strongly connected cluster**: no out-of-bounds access, no read of an uninitialised `L` entry; at the end
-all `N × N` distances are finite and every predecessor is a node -/
-theorem fwRun_no_fault {tol : Rat} {A : Csr} {glob : Nat → Option Nat} {l : OArr} {m : Array Int} {a : Int} {N maxsize : Nat}
+/-- **`floyd_warshall` on one cluster, any pattern**: no out-of-bounds access, no read of an uninitialised `L` entry; at the end
+every finite distance has a node as predecessor; and every pair joined by a walk inside the cluster has a finite distance -/
+theorem fwRun_ok {tol : Rat} {A : Csr} {glob : Nat → Option Nat} {l : OArr} {m : Array Int} {a : Int} {N maxsize : Nat}
     (hL : Local A glob l m a N) (hN : N ≤ maxsize)
-    (hloc : ∀ t, t < N → ∀ g, glob t = some g → rdU l g = some t)
-    (hconn : ∀ u v, u < A.n → v < A.n → rdI m u = a → rdI m v = a → CWalk A m u v) :
-    ∃ fw, fwRun tol A glob l m a N maxsize = some fw ∧ FwOK N A.n fw ∧ ∀ i j, i < N → j < N → Fin fw (i * N + j) := by
+    (hloc : ∀ t, t < N → ∀ g, glob t = some g → rdU l g = some t) :
+    ∃ fw, fwRun tol A glob l m a N maxsize = some fw ∧ FwOK N A.n fw ∧
+      ∀ i j, i < N → j < N → ∀ gi gj, glob i = some gi → glob j = some gj → CWalk A m gi gj → Fin fw (i * N + j) := by
   have hNN : N * N ≤ maxsize * maxsize := Nat.mul_le_mul hN hN
   unfold fwRun
   rw [if_pos hNN]
@@ -372,11 +373,12 @@ theorem fwRun_no_fault {tol : Rat} {A : Csr} {glob : Nat → Option Nat} {l : OA
   rw [e2]
   simp only
   obtain ⟨ok3, hreach⟩ := fwMain_ok (tol := tol) ok2
-  refine ⟨_, rfl, ok3, fun i j hi hj => hreach i j hi hj (lwalk_rk N i j ?_)⟩
+  refine ⟨_, rfl, ok3, fun i j hi hj gi gj hgi hgj hw => hreach i j hi hj (lwalk_rk N i j ?_)⟩
   -- the walk inside the cluster, in local indices
-  obtain ⟨gi, hgi, hgin, hmi⟩ := hL.slot i hi
-  obtain ⟨gj, hgj, hgjn, hmj⟩ := hL.slot j hj
-  have hw := hconn gi gj hgin hgjn hmi hmj
+  obtain ⟨gi', hgi', hgin, hmi⟩ := hL.slot i hi
+  rw [hgi] at hgi'
+  injection hgi' with hgi'
+  subst hgi'
   have key : ∀ u w, CWalk A m u w → u < A.n → rdI m u = a → ∀ tu, tu < N → glob tu = some u →
       ∀ tw, tw < N → glob tw = some w → LWalk (fun i j => Fin fw2 (i * N + j)) N tu tw := by
     intro u w hcw
@@ -398,5 +400,18 @@ theorem fwRun_no_fault {tol : Rat} {A : Csr} {glob : Nat → Option Nat} {l : OA
         le2 _ (hedge tu htu u hu jj hjj (by rw [hjv]; exact hmva) tv (by rw [hjv]; exact hlv))
       exact LWalk.cons hE htv (ih hvn hmva tv htv hgv tw htw hw')
   exact key gi gj hw hgin hmi i hi hgi j hj hgj
+
+/-- on a cluster that is strongly connected through stored entries (the assumption of the kernel's doc string) ALL `N × N`
+distances end finite -/
+theorem fwRun_connected {tol : Rat} {A : Csr} {glob : Nat → Option Nat} {l : OArr} {m : Array Int} {a : Int} {N maxsize : Nat}
+    (hL : Local A glob l m a N) (hN : N ≤ maxsize)
+    (hloc : ∀ t, t < N → ∀ g, glob t = some g → rdU l g = some t)
+    (hconn : ∀ u v, u < A.n → v < A.n → rdI m u = a → rdI m v = a → CWalk A m u v) :
+    ∃ fw, fwRun tol A glob l m a N maxsize = some fw ∧ FwOK N A.n fw ∧ ∀ i j, i < N → j < N → Fin fw (i * N + j) := by
+  obtain ⟨fw, e, ok, h⟩ := fwRun_ok (tol := tol) hL hN hloc
+  refine ⟨fw, e, ok, fun i j hi hj => ?_⟩
+  obtain ⟨gi, hgi, hgin, hmi⟩ := hL.slot i hi
+  obtain ⟨gj, hgj, hgjn, hmj⟩ := hL.slot j hj
+  exact h i j hi hj gi gj hgi hgj (hconn gi gj hgin hgjn hmi hmj)
 
 end PyamgV.C17R5
